@@ -286,6 +286,42 @@ func main() {
 		del(6)
 		del(6)
 	}
+	// ---- scripted: the write fails on a replica (dropped before / after its handler ran), the replica recovers, the client retries
+	// the IDENTICAL upload (same bytes, name, type, ts): the retry must reach the replicas although the primary finds its needle
+	// unchanged. A type that travels unchanged (video/mp4), so that nothing but the retry decides the outcome.
+	for _, rep := range []int{2, 3} {
+		for _, mode := range []int{1, 2} {
+			reset(rep, []string{"", "", "001", "002"}[rep])
+			payload := []byte("retried payload \x00\x01\x02 retried payload")
+			fault(rep-1, mode)
+			up(7, "clip.mp4", "video/mp4", 555, "", []pair{{"Owner", "v"}}, false, false, payload)
+			fault(rep-1, 0)
+			up(7, "clip.mp4", "video/mp4", 555, "", []pair{{"Owner", "v"}}, false, false, payload)
+			up(7, "clip.mp4", "video/mp4", 555, "", []pair{{"Owner", "v"}}, false, false, payload)
+			del(7)
+		}
+	}
+	// ---- scripted: untyped binary blobs around the 16 KiB threshold whose first 128 bytes compress well (zero-padded header,
+	// fixed-width records): the forwarding upload decides by the 128-byte sample and gzips the WHOLE payload
+	for _, rep := range []int{2, 3} {
+		reset(rep, []string{"", "", "001", "002"}[rep])
+		key := uint64(20)
+		for _, n := range []int{1024, 16 * 1024, 16*1024 + 1, 16*1024 + 16, 24 * 1024} {
+			for _, nm := range [][2]string{{"records.dat", ""}, {"", ""}, {"e.bin", "application/octet-stream"}} {
+				b := make([]byte, n)
+				for i := 128; i < n; i++ {
+					if i%64 < 8 {
+						b[i] = byte(i / 64) // record number, the rest of each record stays zero
+					} else if i%64 < 24 {
+						b[i] = r.Bytes(1)[0]
+					}
+				}
+				b[3] = 1
+				key++
+				up(key, nm[0], nm[1], 2000+key, "", nil, false, false, b)
+			}
+		}
+	}
 	// ---- random histories
 	histories := 12
 	if a.Thorough() {
